@@ -1,5 +1,5 @@
 """C12 — pack/unpack never leaves the buffer, fails stickily, uses fixed byte order (tie D; Lean proofs over all op lists)."""
-import os
+import os, zlib
 import vlib
 from props import packwav_common as pw
 
@@ -39,11 +39,15 @@ def spec(h):
     """independent oracle from the property text: a byte array and a count of requested bytes"""
     out, buf, cur = [], None, 0
     def tail():
-        return ' c=%d r=%d buf=%s' % (cur, len(buf) - cur, pw.hx(buf))
+        img = pw.hx(buf) if len(buf) <= 64 else '#%08x' % zlib.crc32(bytes(buf))
+        return ' c=%d r=%d buf=%s' % (cur, len(buf) - cur, img)
     for l in h:
         w = l.split()
         if w[0] == 'buf':
-            buf, cur = list(pw.unhx(w[2])), 0
+            buf, cur = bytearray(pw.unhx(w[2])), 0
+            out.append('-' + tail()); continue
+        if w[0] == 'bufp':
+            buf, cur = bytearray(pat_byte(int(w[2]), i) for i in range(int(w[1]))), 0
             out.append('-' + tail()); continue
         if buf is None:
             out.append('bad-op'); continue
@@ -75,14 +79,18 @@ def spec(h):
     return out
 
 
+def pat_byte(seed, i):
+    return (i * 131 + (i // 256) * 17 + (i // 65536) * 29 + seed) % 256
+
+
 def valid(h):
     """scope: the buffer is set up first; fewer than 2^31 requested bytes between two inits"""
-    if not h or not h[0].startswith('buf '):
+    if not h or not h[0].startswith(('buf ', 'bufp ')):
         return False
     tot = 0
     for l in h[1:]:
         w = l.split()
-        if w[0] == 'buf':
+        if w[0] in ('buf', 'bufp'):
             return False
         tot = 0 if w[0] == 'init' else tot + op_size(w)
         if tot >= 1 << 31:
@@ -179,6 +187,62 @@ def gen_values(kind, vals):
     return h
 
 
+BIG = [65530, 65535, 65536, 65537, 70000, 131071, 131072, 1 << 20, (1 << 24) - 1, 1 << 24, 1 << 30]
+
+
+def small_tail(rng, packing):
+    """a few small items with visible results: what a wrapped cursor would let through again"""
+    ops = []
+    for _ in range(rng.range(2, 5)):
+        ops.append(item(rng, rng.choice([0, 1, 2, 4, 3]), packing))
+    return ops
+
+
+def gen_many_bytes(rng):
+    """small buffer, requested total crossing 2^16 / 2^17 / 2^24 / approaching 2^31 (in scope: below 2^31): the counters
+    must keep counting and nothing may be transferred any more, however the total relates to 2^16"""
+    n = rng.range(0, 40)
+    h = ['buf %d %s' % (n, pw.hx(fill(rng, n)))]
+    for packing in (rng.chance(1, 2), rng.chance(1, 2)):
+        c0 = rng.range(0, n)
+        h += walk_to(rng, c0, packing)
+        skip = 'pn' if packing else 'us'
+        k = rng.below(5)
+        if k == 0:                                              # one jump that lands a 16/17/24-bit cursor back inside the buffer
+            h.append(f'{skip} {rng.choice([1 << 16, 1 << 17, 1 << 24, 3 << 16]) - c0 + rng.range(0, n)}')
+        elif k == 1:
+            h.append(f'{skip} {rng.choice(BIG)}')
+        elif k == 2:                                            # several medium requests adding up past 2^16
+            tot = 0
+            while tot < (1 << 16) + rng.below(3000):
+                s_ = rng.choice([9000, 10000, 16384, 30000, 32768, rng.range(1, 20000)])
+                h.append(f'{rng.choice([skip, "us", "pn"])} {s_}'); tot += s_
+        elif k == 3:                                            # just below the scope limit
+            h.append(f'{skip} {(1 << 31) - 200 - c0 - rng.below(1000)}')
+        else:
+            h += [f'{skip} {rng.choice(BIG)}', f'{rng.choice(["us", "pn"])} {rng.choice(BIG[:-1])}']      # stays below 2^31 in total
+        h += small_tail(rng, packing) + small_tail(rng, not packing)
+        h.append('init')
+    h += walk_to(rng, n, False)
+    return h
+
+
+def gen_big_buffer(rng):
+    """a buffer of 64 KiB or more (exactly sized): items near its start, skips to near its end, items up to and past the end"""
+    n = rng.choice([1 << 16, (1 << 16) + rng.range(1, 40), (1 << 16) + rng.range(1, 40), 70000, (1 << 17) + rng.range(0, 9)])
+    h = [f'bufp {n} {rng.below(256)}']
+    h += [item(rng, 4, True), item(rng, 2, True), f'pn {rng.range(1, 1500)}', item(rng, 4, True)]
+    h += ['init', 'uu32', 'uu16', 'ub 3']
+    for packing in (False, True):
+        h.append('init')
+        back = rng.range(0, 12)
+        h.append(f'us {n - back}')                               # a NULL-destination skip to `back` bytes before the end
+        h += walk_to(rng, back, packing)                          # exactly to the end
+        h += [item(rng, 0, packing), item(rng, 1, packing), item(rng, 2, packing)]
+    h += ['init', f'us {(1 << 16) - rng.range(0, 6)}', 'uu32', 'uu16', 'uc', 'init', f'us {1 << 16}', item(rng, 4, True), 'init', f'us {1 << 16}', 'uu32']
+    return h
+
+
 def single_byte_patterns(width):
     return [b << (8 * k) for k in range(width) for b in range(256)] + [((1 << (8 * width)) - 1) ^ (b << (8 * k)) for k in range(width) for b in (1, 0x80, 0xff)]
 
@@ -210,6 +274,11 @@ def run(ctx):
             for c in range(0, n + 1):
                 hs.append(gen_crossing(rng, n, c))
             hs.append(gen_exact_fit(rng, n)); hs.append(gen_exact_fit(rng, n))
+    nbig0 = len(hs)
+    hs += [gen_many_bytes(rng) for _ in range(150 if ctx.tier == 'quick' else 1500)]
+    hs += [gen_big_buffer(rng) for _ in range(12 if ctx.tier == 'quick' else 80)]
+    nbig = len(hs) - nbig0
+    assert all(valid(h) for h in hs[nbig0:]), 'generator left the scope (2^31 requested bytes)'
     nvals = 0
     for kind in PACK16 + PACK32:
         w = 2 if kind in PACK16 else 4
@@ -231,14 +300,18 @@ def run(ctx):
         ctx.cov['line_coverage_of_modelled_code'] = pw.uncovered_lines(ctx, os.path.join(vlib.VERIF, 'harness/h_pack.c'), [vlib.REPO + '/librfn/pack.c'], hs)
     ctx.cov['ops_histogram'] = cross
     ctx.cov['ops_total'] = sum(len(h) for h in hs)
-    ctx.cov['buffer_sizes'] = '0..40, every crossing position 0..n for each'
+    ctx.cov['buffer_sizes'] = '0..40, every crossing position 0..n for each; 65536..131080 in the large-buffer histories'
+    ctx.cov['histories_over_65536_requested_bytes_or_64KiB_buffers'] = nbig
+    ctx.cov['max_requested_total_in_one_history'] = max(sum(op_size(l.split()) for l in h[1:]) for h in hs)
     ctx.cov['values_round_tripped'] = nvals
     ov = sum(1 for h in hs for l in spec(h) if ' r=-' in l)
     ctx.cov['outputs_in_overflow_state'] = ov
     ctx.sample({'history': hs[len(hs) // 3][:14]})
     ctx.sample({'history': hs[-1][:8], 'length': len(hs[-1])})
     ctx.cov['rule'] = ('for every buffer size n in 0..40 and every cursor position c in 0..n: pack items up to c, one item that does not fit (by 1 or more), later items; rewind; the same with unpack items; '
-                       'exact-fit histories (last item ends at n, then zero-sized and one-byte items); value histories packing every single-byte pattern of 16/32-bit values with all five packers '
+                       'exact-fit histories (last item ends at n, then zero-sized and one-byte items); histories whose requested total crosses 2^16, 2^17, 2^24 and approaches 2^31 on small buffers '
+                       '(NULL source/destination requests, single and accumulated, landing a narrow cursor back inside the buffer) followed by small items; exactly-sized buffers of 64 KiB..128 KiB '
+                       'used at their start and end (image reported as CRC-32); value histories packing every single-byte pattern of 16/32-bit values with all five packers '
                        'and reading them back; buffers, sources and destinations are exactly-sized heap blocks under ASan; distinct = distinct op list; non-trivial = more than two ops')
     ctx.assumptions.append(META['level_note'])
 
